@@ -20,11 +20,20 @@ def c14_differential(binary, tier, seed):
             procs.append((subprocess.Popen([binary, "-test.run", "^TestC14Diff$", "-test.timeout", "1200s"], env=env, stdout=subprocess.PIPE, stderr=subprocess.STDOUT, text=True), out))
         checks = 0
         trouble = None
-        for p, out in procs:
+        for i, (p, out) in enumerate(procs):
             o, _ = p.communicate()
             if p.returncode != 0:
-                trouble = o[-3000:]
-                continue
+                # real time, real sockets: a starved machine makes the embedded server miss its own
+                # deadlines. Run the batch once more, alone, before calling it trouble.
+                try:
+                    os.remove(out)
+                except OSError:
+                    pass
+                env = dict(os.environ); env["VERIF_C14DIFF_JOB"] = os.path.join(tmp, "job%d.json" % i)
+                p2 = subprocess.run([binary, "-test.run", "^TestC14Diff$", "-test.timeout", "1200s"], env=env, stdout=subprocess.PIPE, stderr=subprocess.STDOUT, text=True)
+                if p2.returncode != 0:
+                    trouble = (o[-1500:] + "\n--- retry ---\n" + p2.stdout[-1500:])
+                    continue
             for l in open(out):
                 r = json.loads(l)
                 checks += r.get("checks", 0)
@@ -39,6 +48,24 @@ def c14_differential(binary, tier, seed):
     finally:
         shutil.rmtree(tmp, ignore_errors=True)
     return results, info
+
+
+def c14_diff_seed(binary, seed, ops=14):
+    """Re-runs the differential for one seed; returns (list of violation dicts, ops) or None on trouble."""
+    tmp = tempfile.mkdtemp(prefix="vc14r-")
+    try:
+        jp = os.path.join(tmp, "job.json"); out = os.path.join(tmp, "out.jsonl")
+        json.dump({"seeds": [seed], "out": out, "ops": ops}, open(jp, "w"))
+        env = dict(os.environ); env["VERIF_C14DIFF_JOB"] = jp
+        p = subprocess.run([binary, "-test.run", "^TestC14Diff$", "-test.timeout", "600s"], env=env, stdout=subprocess.PIPE, stderr=subprocess.STDOUT, text=True)
+        if p.returncode != 0:
+            return None
+        for l in open(out):
+            r = json.loads(l)
+            return (r.get("viol") or [], r.get("ops"))
+        return None
+    finally:
+        shutil.rmtree(tmp, ignore_errors=True)
 
 
 # ---------------------------------------------------------------------------------------------
